@@ -37,14 +37,16 @@ Logged(e, X, base) ==
                                            ELSE IF X.ws[i] = "alive" THEN "dead" ELSE X.ws[i]]]
 
 \* safety invariants of C04 on a logged post-state (core cells only change through d)
-SafeLogged(e, S) ==
+SafeLoggedS(e, S, stale) ==
   /\ \A k \in 1..Len(e.d) : e.d[k][1] \in 0..S.M-1 /\ WellFormedIns(DecIns(e.d[k][2]), S.M)
   /\ Len(e.q) = e.count /\ Len(e.alive) = e.count
   /\ \A i \in 1..Len(e.q) : /\ Len(e.q[i]) <= S.P
                             /\ \A k \in 1..Len(e.q[i]) : e.q[i][k] \in 0..S.M-1
-  /\ \A i \in 1..Len(e.q) : i \notin t.stale => ((e.alive[i] = 1) <=> (e.q[i] # << >>))
+  /\ \A i \in 1..Len(e.q) : i \notin stale => ((e.alive[i] = 1) <=> (e.q[i] # << >>))
   /\ e.cycle \in 0..S.C
   /\ e.living = Cardinality({i \in 1..Len(e.alive) : e.alive[i] = 1})
+
+SafeLogged(e, S) == SafeLoggedS(e, S, t.stale)
 
 \* ---------------------------------------------------------------- reports (C15)
 RSpawn == 3  RTerm == 6  RDie == 7  RWrite == 9  RDec == 10  RInc == 11
@@ -162,7 +164,7 @@ Check(e) ==
                             /\ \A i \in 1..N(S) : e.q[i] = S.wq[i]
                             /\ e.same = 1
     [] e.ev = "reset" ->
-         /\ Mode = "C04" => SafeLogged(e, S)
+         /\ Mode = "C04" => SafeLoggedS(e, S, 1..N(S))          \* queues are unspecified between Reset and the re-spawn
          /\ Mode \in {"C02", "C13", "C15"} => PostEq(e, ResetW(S), S.core, 1..N(S))
          /\ Mode = "C13" => QryOK(e, ResetW(S), 1..N(S))
          /\ Mode = "C15" => DecRec(e.rec) = EmptyRec(S.M)
